@@ -27,7 +27,24 @@ class Config:
         self.max_depth = max_depth
         self.assume_true = list(assume_true)
         self.size_facts = list(size_facts)  # (smaller_key, larger_key) strict
-        self.empty = set(self.flags.get("empty", ()))  # space keys with size == 0
+        # space keys with size == 0; `all_dropped`: parents every row of which fails every row filter (a diagram that holds
+        # only points with infinite death), so that each of their sub-spaces is empty although they are not
+        self.empty = _EmptyKeys(self.flags.get("empty", ()), self.flags.get("all_dropped", ()))
+
+
+class _EmptyKeys(set):
+    def __init__(self, keys, dropped=()):
+        super().__init__(keys)
+        self.dropped = set(dropped)
+
+    def __contains__(self, key):
+        if set.__contains__(self, key):
+            return True
+        if isinstance(key, tuple) and len(key) >= 2 and key[0] in ("sub", "slice"):
+            if key[0] == "sub" and key[1] in self.dropped:
+                return True
+            return key[1] in self
+        return False
 
 
 # positional parameter names of external functions (so that keyword call style reaches the same primitive)
@@ -387,6 +404,8 @@ class Interp:
     def size_lb(self, key) -> int:
         if key in self.cfg.nonempty:
             return 1
+        if key in self.cfg.empty:
+            return 0
         if isinstance(key, tuple) and key and key[0] == "sub" and self.cfg.flags.get("sub_nonempty"):
             return 1
         return 0
@@ -1791,6 +1810,18 @@ class Interp:
         idx = self.index_items(target.slice, env)
         self.event("store", st, base=base, idx=idx, value=v, target=target)
         name = target.value.id if isinstance(target.value, ast.Name) else None
+        holder = None
+        if name is None and isinstance(target.value, ast.Attribute) and isinstance(target.value.value, ast.Name):
+            # `obj.field[...] = v`: the array sits in an attribute of an object of the analysed code
+            ob = env.get(target.value.value.id)
+            if isinstance(ob, ObjV) and ob.attrs.get(target.value.attr) is base:
+                holder = (ob, target.value.attr)
+
+        def put(nv):
+            if name:
+                self._rebind(name, env, st).__setitem__(name, nv)
+            elif holder is not None:
+                holder[0].attrs[holder[1]] = nv
         if isinstance(base, DictV):
             key = idx[0]
             if key[0] == "str" and key[1] in ("<formatted>", "<f-string>"):
@@ -1841,8 +1872,7 @@ class Interp:
             b.stores.append(dict(r0=bounds[0], r1=bounds[1], c0=bounds[2], c1=bounds[3], val=v, node=st,
                                  vshape=vshape))
             self.blocks[b.uid] = b
-            if name:
-                self._rebind(name, env, st).__setitem__(name, b)
+            put(b)
             return
         # D[a + k, b + k] = vals[k] (two index arrays walking a diagonal together): a diagonal block
         if len(idx) == 2 and all(it[0] == "fancy" for it in idx) and isinstance(base, (Arr, Blocks)) \
@@ -1851,15 +1881,14 @@ class Interp:
             b = self._paired_diag_store(base, idx, v, st)
             if b is not None:
                 s0 = b.stores[0] if len(b.stores) == 1 else None
-                if name and s0 is not None and isinstance(s0["val"], DiagMat) and s0["r0"] == sym.ZERO and s0["c0"] == sym.ZERO \
+                if (name or holder) and s0 is not None and isinstance(s0["val"], DiagMat) and s0["r0"] == sym.ZERO and s0["c0"] == sym.ZERO \
                         and sym.equal(s0["r1"], b.shape[0]) and sym.equal(s0["c1"], b.shape[1]) and s0["val"].off == b.base:
                     # the walk covers the whole main diagonal of a square array that held one value everywhere: that is a
                     # diagonal matrix (np.full + fill_diagonal written with index arrays)
-                    self._rebind(name, env, st).__setitem__(name, s0["val"])
+                    put(s0["val"])
                     return
                 self.blocks[b.uid] = b
-                if name:
-                    self._rebind(name, env, st).__setitem__(name, b)
+                put(b)
                 return
         if isinstance(base, Blocks):
             base.opaque_stores = getattr(base, "opaque_stores", []) + [st]
@@ -1871,8 +1900,8 @@ class Interp:
                 base.axes, base.elem = nv.axes, nv.elem
                 return
         u = self.unknown("subscript-store", st, (generic_elem(base), generic_elem(v)))
-        if name:
-            self._rebind(name, env, st).__setitem__(name, u)
+        if name or holder is not None:
+            put(u)
         elif isinstance(base, Arr):
             # a store through an attribute / element that is not modelled: the array object (and every alias) now holds
             # something unknown — never silently the old contents
@@ -2283,6 +2312,11 @@ class Interp:
                 else:
                     out = out if d is True else (v if d is False else self.join_cond(t, out, v))
             return out
+        if isinstance(n, ast.NamedExpr) and isinstance(n.target, ast.Name):
+            # `(x := e)`: binds in the enclosing function scope and is the value itself
+            v = self._eval_raw(n.value, env)
+            env[n.target.id] = v
+            return v.val if isinstance(v, Opt) else v
         if isinstance(n, ast.IfExp):
             tv_ = self.eval(n.test, env)
             self.note_truth(tv_, n.test)
@@ -2488,6 +2522,10 @@ class Interp:
         """like eval, but a plain name keeps its optional wrapper (for `x is None` tests)"""
         if isinstance(n, ast.Name):
             return self.lookup(n.id, env, n)
+        if isinstance(n, ast.NamedExpr) and isinstance(n.target, ast.Name):
+            v = self._eval_raw(n.value, env)
+            env[n.target.id] = v
+            return v
         return self.eval(n, env)
 
     def compare(self, op, a: Val, b: Val, node) -> Val:
@@ -2600,6 +2638,11 @@ class Interp:
                     return FuncV("repo", m.qualname, bound_self=base)
             if base.cls is None:
                 return FuncV("method", attr, bound_self=base)
+            cv = self._class_attr(base.cls, attr)
+            if cv is not None:
+                return cv
+            if getattr(base, "record", None) and attr in ("_replace", "_asdict", "_fields"):
+                return FuncV("method", attr, bound_self=base)
             return self.unknown(f"attribute:{attr}", node)
         if isinstance(base, FuncV) and base.kind == "class":
             c = self.p.classes.get(base.target)
@@ -2608,6 +2651,9 @@ class Interp:
                 return FuncV("repo", m.qualname, bound_self=base)   # cls is bound to the class the method is reached through
             if m is not None:
                 return FuncV("repo", m.qualname)
+            cv = self._class_attr(base.target, attr)
+            if cv is not None:
+                return cv
         h = self.method_prims.get(attr)
         if attr in ("shape", "size", "T", "ndim", "dtype", "real", "imag"):
             from . import prims
@@ -2615,6 +2661,25 @@ class Interp:
         if h is not None:
             return FuncV("method", attr, bound_self=base)
         return FuncV("method", attr, bound_self=base)
+
+    def _class_attr(self, cls: str, attr: str, depth=0) -> Optional[Val]:
+        """a name assigned in the class body (a constant table, a rotation matrix) read through the class or an instance;
+        names of the same class body used by its expression are evaluated the same way"""
+        c = self.p.classes.get(cls)
+        if c is None or depth > 4:
+            return None
+        for k in c.mro(self.p):
+            e = k.class_attrs.get(attr)
+            if e is None:
+                continue
+            env = {}
+            for n in ast.walk(e):
+                if isinstance(n, ast.Name) and n.id in k.class_attrs and n.id != attr and n.id not in env:
+                    v = self._class_attr(k.qualname, n.id, depth + 1)
+                    if v is not None:
+                        env[n.id] = v
+            return self.eval(e, env)
+        return None
 
     def subscript(self, base: Val, idx: list, node) -> Val:
         if isinstance(base, Alt):
@@ -2779,6 +2844,8 @@ class Interp:
             return got[0] if len(got) == 1 else Seq(got, "tuple")
         if isinstance(fv, ObjV) and fv.tag == "attrgetter" and len(pos) == 1 and fv.attrs.get("k"):
             return self.attribute(pos[0], fv.attrs["k"], n, env)
+        if isinstance(fv, ObjV) and fv.tag == "attrgetter" and len(pos) == 1 and fv.attrs.get("ks"):
+            return Seq([self.attribute(pos[0], k_, n, env) for k_ in fv.attrs["ks"]], "tuple")
         if isinstance(fv, FuncV):
             if fv.kind == "partial":
                 inner, p_args, p_kw = fv.target
